@@ -16,6 +16,7 @@ from gwf.plugins import run as run_mod
 from gwf.scheduling import submit_backend
 
 META = {
+    "solver_reasoned": 'the spec text (symbolic str, <= 4/6 characters); otherwise selectors (option level choices, directory-name characters, log-name subsets as a symbolic bit mask).',
     "real": ["gwf.workflow.Workflow.target/target_from_template/map", "gwf.utils.chain", "gwf.scheduling.submit_backend", "gwf.backends.slurm.SlurmOps.compile_script/submit_target",
              "gwf.backends.sge.SGEOps.compile_script/submit_target", "gwf.backends.lsf.LSFOps.compile_script/submit_target", "gwf.utils.ensure_trailing_newline",
              "gwf.plugins.logs.logs (body)", "gwf.plugins.run.clean_logs", "gwf.plugins.run.run (body)", "gwf.backends.base.TrackingBackend.submit"],
